@@ -212,51 +212,150 @@ func eventClass(e ev, src string) (string, string) {
 	return e.Kind, loc
 }
 
-// expect returns the acceptable call lists for a non-incremental sink. dontcare is
-// true when the statement gives no expectation (the source directory entry itself).
-func expect(e ev, src, tgt string, found bool) (want [][]call, dontcare bool) {
-	lo, ln := locClass(e.Old, src), locClass(e.New, src)
-	if lo == "self" || ln == "self" {
-		return nil, true
+// ---- reference model of the event processing, with switches for the known defects
+//
+// With every switch off this is the reference the statement asks for. Each switch
+// reproduces one defect of the real code exactly; when an observation differs from
+// the reference, the smallest set of switches that reproduces the observed calls
+// names the defect(s) it exhibits. An observation no switch set reproduces is
+// reported with its full event class.
+
+type defects struct {
+	A bool // prefix test without path separator: /data2 counts as inside /data (both code paths)
+	B bool // Replicate: UpdateEntry gets the event's NewParentPath unmapped
+	C bool // Replicate: a rename event is handled as an update keyed by the old path only
+	D bool // genProcessFunction: event dropped when its Directory (old parent) is outside, even if the new path is inside
+	E bool // genProcessFunction: slices NewParentPath[len(source):] although it can be shorter (needs A)
+}
+
+var defectNames = map[string]string{
+	"A": "sibling-prefix-treated-as-inside",
+	"B": "update-new-parent-not-mapped",
+	"C": "rename-handled-as-update-at-old-key",
+	"D": "rename-into-dropped-because-old-directory-outside",
+	"E": "panic-new-parent-shorter-than-source",
+}
+
+func (d defects) inside(p, src string) bool {
+	if p == "" {
+		return false
 	}
-	oin, nin := lo == "inside", ln == "inside"
+	if d.A {
+		return strings.HasPrefix(p, src)
+	}
+	c := locClass(p, src)
+	return c == "inside"
+}
+
+// dirInside: is a directory the source directory or below it.
+func (d defects) dirInside(dir, src string) bool {
+	if d.A {
+		return strings.HasPrefix(dir, src)
+	}
+	c := locClass(dir, src)
+	return c == "inside" || c == "self"
+}
+
+func cutKey(p, src, tgt, date string) string { return path.Join("/", tgt, date, p[len(src):]) }
+
+// model returns the sink calls for one event (non-incremental and incremental sinks).
+func model(via string, e ev, src, tgt string, found, incr bool, d defects) []call {
+	date := ""
+	if incr {
+		date = dateOf(baseMtime)
+	}
+	oin, nin := d.inside(e.Old, src), d.inside(e.New, src)
 	var ok, nk, np string
 	if oin {
-		ok = mapKey(e.Old, src, tgt, "")
+		ok = cutKey(e.Old, src, tgt, date)
+	}
+	rawParent := ""
+	if e.New != "" {
+		rawParent, _ = dirName(e.New)
 	}
 	if nin {
-		nk = mapKey(e.New, src, tgt, "")
+		nk = cutKey(e.New, src, tgt, date)
 		np, _ = dirName(nk)
 	}
 	_, nname := dirName(e.New)
-	none := [][]call{{}}
+	del := func(k string, chunks bool) call { return call{Op: "delete", Key: k, IsDir: e.IsDir, DelChunks: chunks} }
+	create := func(k string) call { return call{Op: "create", Key: k, IsDir: e.IsDir, NewName: nname} }
+	update := func(k, parent string) call {
+		return call{Op: "update", Key: k, NewParent: parent, IsDir: e.IsDir, NewName: nname, DelChunks: e.DeleteChunks}
+	}
 	switch e.Kind {
 	case "create":
+		if via == "genprocess" && d.D && !d.dirInside(rawParent, src) {
+			return nil
+		}
 		if !nin {
-			return none, false
+			return nil
 		}
-		return [][]call{{{Op: "create", Key: nk, IsDir: e.IsDir, NewName: nname}}}, false
+		return []call{create(nk)}
 	case "delete":
-		if !oin {
-			return none, false
+		if od, _ := dirName(e.Old); via == "genprocess" && d.D && !d.dirInside(od, src) {
+			return nil
 		}
-		return [][]call{{{Op: "delete", Key: ok, IsDir: e.IsDir, DelChunks: e.DeleteChunks}}}, false
-	case "update", "rename":
+		if !oin {
+			return nil
+		}
+		return []call{del(ok, e.DeleteChunks)}
+	}
+	// update in place / rename
+	if via == "replicate" {
+		parent := np
+		if d.B || !nin {
+			parent = rawParent
+		}
+		if d.C && e.Kind == "rename" {
+			if !oin {
+				return nil
+			}
+			if found {
+				return []call{update(ok, parent)}
+			}
+			return []call{update(ok, parent), del(ok, false), create(ok)}
+		}
 		switch {
 		case oin && nin:
-			upd := call{Op: "update", Key: ok, NewParent: np, IsDir: e.IsDir, NewName: nname, DelChunks: e.DeleteChunks}
 			if found {
-				return [][]call{{upd}}, false
+				return []call{update(ok, parent)}
 			}
-			return [][]call{{upd, {Op: "delete", Key: ok, IsDir: e.IsDir}, {Op: "create", Key: nk, IsDir: e.IsDir, NewName: nname}}}, false
+			return []call{update(ok, parent), del(ok, false), create(nk)}
 		case oin:
-			return [][]call{{{Op: "delete", Key: ok, IsDir: e.IsDir, DelChunks: e.DeleteChunks}}}, false
+			return []call{del(ok, e.DeleteChunks)}
 		case nin:
-			return [][]call{{{Op: "create", Key: nk, IsDir: e.IsDir, NewName: nname}}}, false
+			return []call{create(nk)}
 		}
-		return none, false
+		return nil
 	}
-	return none, false
+	// genprocess
+	odir, _ := dirName(e.Old)
+	if d.D && !d.dirInside(odir, src) {
+		return nil
+	}
+	switch {
+	case oin && nin:
+		if incr {
+			return []call{create(nk)}
+		}
+		if d.E && len(rawParent) < len(src) {
+			return []call{{Op: "panic"}}
+		}
+		// the mapped new parent is computed by cutting the raw parent, which under A can differ from dir(nk)
+		if found {
+			return []call{update(ok, np)}
+		}
+		return []call{update(ok, np), del(ok, false), create(nk)}
+	case oin:
+		if incr {
+			return nil
+		}
+		return []call{del(ok, e.DeleteChunks)}
+	case nin:
+		return []call{create(nk)}
+	}
+	return nil
 }
 
 func callsEqual(a, b []call) bool {
@@ -264,6 +363,9 @@ func callsEqual(a, b []call) bool {
 		return false
 	}
 	for i := range a {
+		if a[i].Op == "panic" && b[i].Op == "panic" {
+			continue
+		}
 		if a[i] != b[i] {
 			return false
 		}
@@ -271,8 +373,13 @@ func callsEqual(a, b []call) bool {
 	return true
 }
 
-// classify names how got differs from want (first acceptable list).
+// classify names how got differs from want.
 func classify(got, want []call) string {
+	for _, g := range got {
+		if g.Op == "panic" {
+			return "panic"
+		}
+	}
 	switch {
 	case len(want) == 0 && len(got) > 0:
 		return "call-for-outside-event"
@@ -302,6 +409,37 @@ func classify(got, want []call) string {
 	return "missing-call"
 }
 
+// explain returns the smallest set of known-defect switches that reproduces got.
+func explain(via string, e ev, src, tgt string, found, incr bool, got []call) []string {
+	var cands [][]string
+	if via == "replicate" {
+		cands = [][]string{{"A"}, {"B"}, {"C"}, {"A", "B"}, {"A", "C"}, {"B", "C"}, {"A", "B", "C"}}
+	} else {
+		cands = [][]string{{"A"}, {"D"}, {"A", "D"}, {"A", "E"}, {"A", "D", "E"}}
+	}
+	for _, c := range cands {
+		var d defects
+		for _, f := range c {
+			switch f {
+			case "A":
+				d.A = true
+			case "B":
+				d.B = true
+			case "C":
+				d.C = true
+			case "D":
+				d.D = true
+			case "E":
+				d.E = true
+			}
+		}
+		if callsEqual(got, model(via, e, src, tgt, found, incr, d)) {
+			return c
+		}
+	}
+	return nil
+}
+
 // ---------------------------------------------------------------- single-event checks
 
 type world struct {
@@ -321,10 +459,15 @@ var sinkKinds = []sinkKind{
 	{"rec-incr", "rec", true, true},
 }
 
-func (w *world) runEvent(via string, sk sinkKind, src, tgt string, e ev) []call {
+func (w *world) runEvent(via string, sk sinkKind, src, tgt string, e ev) (calls []call) {
 	s := &recSink{name: sk.SinkName, dir: tgt, incremental: sk.Incremental, found: sk.Found}
 	key, resp := e.toMessage()
 	var err error
+	defer func() {
+		if p := recover(); p != nil {
+			calls = append(s.calls, call{Op: "panic", Key: fmt.Sprint(p)})
+		}
+	}()
 	switch via {
 	case "replicate":
 		rp := replication.NewReplicator(mapConf{"source.filer.grpcAddress": "127.0.0.1:1", "source.filer.directory": src}, "source.filer.", s)
@@ -347,67 +490,58 @@ func (w *world) checkEvent(via string, sk sinkKind, src, tgt string, e ev) {
 	cls, loc := eventClass(e, src)
 	r.Eval(1)
 	r.Count("events_"+via, 1)
-	sig := lib.Sig{"via": via, "sink": sk.Name, "event": cls, "loc": loc}
-	report := func(class string, want interface{}) {
-		sig["class"] = class
-		detail["got"] = got
-		detail["want"] = want
-		r.Violation(sig, detail)
-	}
-	if sk.Incremental {
-		// incremental sinks keep dated copies: only keys and inside/outside are judged
-		lo, ln := locClass(e.Old, src), locClass(e.New, src)
-		if lo == "self" || ln == "self" {
-			r.Count("dontcare_source_dir_itself", 1)
-			return
-		}
-		valid := map[string]bool{}
-		if lo == "inside" {
-			valid[mapKey(e.Old, src, tgt, dateOf(baseMtime))] = true
-		}
-		if ln == "inside" {
-			valid[mapKey(e.New, src, tgt, dateOf(baseMtime))] = true
-		}
-		if len(valid) == 0 {
-			if len(got) > 0 {
-				report("call-for-outside-event", []call{})
-			}
-			return
-		}
-		r.Nontrivial(fmt.Sprintf("%s/%s/%s/%s/%v", via, sk.Name, src, cls, e))
-		for _, c := range got {
-			if !valid[c.Key] {
-				report("wrong-key", valid)
-				return
-			}
-		}
-		if ln == "inside" && len(got) == 0 {
-			report("missing-call", valid)
-		}
-		return
-	}
-	want, dontcare := expect(e, src, tgt, sk.Found)
-	if dontcare {
+	if lo, ln := locClass(e.Old, src), locClass(e.New, src); lo == "self" || ln == "self" {
 		r.Count("dontcare_source_dir_itself", 1)
 		return
 	}
-	if len(want[0]) > 0 || len(got) > 0 {
+	want := model(via, e, src, tgt, sk.Found, sk.Incremental, defects{})
+	if len(want) > 0 || len(got) > 0 {
 		r.Nontrivial(fmt.Sprintf("%s/%s/%s/%s/%v", via, sk.Name, src, cls, e))
 	}
-	if len(want[0]) > 0 {
+	if len(want) > 0 {
 		r.Count("events_inside", 1)
 	} else {
 		r.Count("events_outside", 1)
-		if loc == "sibling" || strings.Contains(loc, "sibling") {
+		if strings.Contains(loc, "sibling") {
 			r.Count("events_outside_sibling_prefix", 1)
 		}
 	}
-	for _, wl := range want {
-		if callsEqual(got, wl) {
-			return
+	ok := callsEqual(got, want)
+	if !ok && sk.Incremental {
+		// incremental sinks keep dated copies; the statement does not say which kind of
+		// call an update or move becomes there: judge only that nothing outside is touched,
+		// every key is the dated mapped key of the old or new path, and a change whose new
+		// path is inside produces a call.
+		valid := map[string]bool{}
+		if locClass(e.Old, src) == "inside" {
+			valid[mapKey(e.Old, src, tgt, dateOf(baseMtime))] = true
+		}
+		if locClass(e.New, src) == "inside" {
+			valid[mapKey(e.New, src, tgt, dateOf(baseMtime))] = true
+		}
+		ok = true
+		for _, c := range got {
+			if !valid[c.Key] {
+				ok = false
+			}
+		}
+		if locClass(e.New, src) == "inside" && len(got) == 0 {
+			ok = false
 		}
 	}
-	report(classify(got, want[0]), want[0])
+	if ok {
+		return
+	}
+	detail["got"] = got
+	detail["want"] = want
+	if ex := explain(via, e, src, tgt, sk.Found, sk.Incremental, got); ex != nil {
+		detail["reproduced_by_defect_switches"] = ex
+		for _, f := range ex {
+			r.Violation(lib.Sig{"via": via, "class": defectNames[f]}, detail)
+		}
+		return
+	}
+	r.Violation(lib.Sig{"via": via, "sink": sk.Name, "event": cls, "loc": loc, "class": classify(got, want)}, detail)
 }
 
 // checkOrigin: changes that came from the target cluster must not be applied again.
@@ -584,11 +718,17 @@ func (w *world) runLocalHistory(via, src string, ops []hop, label string) {
 	}
 	t := tree{}
 	classes := map[string]bool{}
+	everSibling := map[string]bool{} // every sibling-prefix path an event of this history named
 	nEvents := 0
 	for _, o := range ops {
 		for _, e := range t.expand(o) {
 			c, loc := eventClass(e, src)
 			classes[c+":"+loc] = true
+			for _, p := range []string{e.Old, e.New} {
+				if locClass(p, src) == "sibling" {
+					everSibling[p] = true
+				}
+			}
 			nEvents++
 			if err := process(e); err != nil {
 				detail["error"] = err.Error()
@@ -654,8 +794,8 @@ func (w *world) runLocalHistory(via, src string, ops []hop, label string) {
 	}
 	siblingOnly := true // every difference is a path produced by cutting len(source) off a sibling path
 	sibKeys := map[string]bool{}
-	for p := range t {
-		if locClass(p, src) == "sibling" {
+	for p := range everSibling {
+		{
 			sibKeys[path.Join("/", p[len(src):])] = true
 			d := p
 			for {
